@@ -60,6 +60,9 @@ DIRECTED = [
      "MIX = 100 - W * H / (H - 2), AFTER };", ["W", "H", "AREA", "MORE", "DIFF", "NEG", "SUM", "MIX", "AFTER"]),
     ("enum Deep { D_A = 7, D_B = 2, D_C = ((D_A - D_B) - (D_B - D_A)), D_D = D_A - (D_B - (D_A - D_B)), D_E = 100 / (D_A / D_B) / D_B, "
      "D_F = 100 / ((D_A / D_B) / D_B + 1), D_G = +D_A - -D_B, D_H };", ["D_A", "D_B", "D_C", "D_D", "D_E", "D_F", "D_G", "D_H"]),
+    # a sign applies to the next primary only: what follows the signed operand belongs to the enclosing expression
+    ("enum Level { LOW = 3, MID = 2 * -LOW + 1, HIGH, TOP = 10 - -LOW - 1, LAST, SGN = -LOW * 2 - 1, PLS = 7 - +LOW * 2, "
+     "NST = 100 / -(LOW - 8) + 1, END };", ["LOW", "MID", "HIGH", "TOP", "LAST", "SGN", "PLS", "NST", "END"]),
 ]
 
 
